@@ -353,6 +353,8 @@ func checkC15(p *Prog, r *Report) {
 	}
 	r.Floor("R5", "core-level subscriptions", nCoreSubs, 1)
 
+	r.Rule("R8", "the stack's own core handler stays subscribed while any peer is connected: RemoveRemoteDevice unsubscribes it only under 'the remote-device map is empty', the size being read after the removal in the same critical section")
+	coreUnsubscribeRule(p, ls, r, "R8")
 	r.Rule("R6", "unsubscribe keeps a handler ⇔ ¬(level ∧ handler equal); subscribe appends only after a miss of the same pair inside one critical section; every read-modify-write of the handler list reads and stores inside one critical section")
 	rebuildAtomic(p, ls, r, "R6", F("events.handlers"), 2)
 	applyRetain(p, r, "R6", "spine", "events", "unsubscribe", retainSpec{Field: F("events.handlers"), Required: map[string]string{"level": "=Level", "handler": "=Handler"}})
@@ -513,4 +515,92 @@ func innermostLoopHeader(b *ssa.BasicBlock) *ssa.BasicBlock {
 		}
 	}
 	return nil
+}
+
+// zeroTest: the guard holds exactly when x == 0 for a non-negative integer x.
+func zeroTest(g Guard) (ssa.Value, bool) {
+	bo, ok := g.Cond.(*ssa.BinOp)
+	if !ok {
+		return nil, false
+	}
+	k, isK := constInt(bo.Y)
+	if !isK {
+		return nil, false
+	}
+	switch {
+	case bo.Op == token.EQL && k == 0 && g.Val,
+		bo.Op == token.NEQ && k == 0 && !g.Val,
+		bo.Op == token.GTR && k == 0 && !g.Val,
+		bo.Op == token.LSS && k == 1 && g.Val,
+		bo.Op == token.LEQ && k == 0 && g.Val,
+		bo.Op == token.GEQ && k == 1 && !g.Val:
+		return bo.X, true
+	}
+	return nil, false
+}
+
+// coreUnsubscribeRule: the stack's own core handler leaves the bus only when the
+// last peer is gone — in RemoveRemoteDevice the unsubscription is guarded by
+// "the number of entries of the remote-device map is zero", the size being taken
+// after the removal inside its critical section.
+func coreUnsubscribeRule(p *Prog, ls *Lockset, r *Report, rule string) {
+	dli := p.LookupIface("api", "DeviceLocalInterface")
+	if dli == nil {
+		r.Undecided(rule, "anchor:api.DeviceLocalInterface", "", "interface not found")
+		return
+	}
+	devKey := F("DeviceLocal.remoteDevices")
+	fname := devKey[strings.Index(devKey, ".")+1:]
+	n := 0
+	for _, fn := range p.ImplsOf(dli, "RemoveRemoteDevice") {
+		if isWrapper(fn) {
+			continue
+		}
+		p.InScope(fn, func() {
+			forEachCall(fn, func(site ssa.CallInstruction) {
+				c, ok := site.(*ssa.Call)
+				if !ok {
+					return
+				}
+				callee := c.Call.StaticCallee()
+				if callee == nil || callee.Signature.Recv() == nil || !isNamed(callee.Signature.Recv().Type(), "spine", "events") || !strings.HasPrefix(strings.ToLower(originName(callee)), "unsub") {
+					return
+				}
+				n++
+				gs := Guards(c.Block())
+				var sizeOK, atomicOK bool
+				desc := "no guard"
+				nOther := 0
+				for _, g := range gs {
+					x, isZ := zeroTest(g)
+					if !isZ {
+						if _, _, isNil := nilTest(g.Cond); isNil {
+							continue // the early return for an unknown peer
+						}
+						nOther++
+						desc = "guarded by " + guardDesc([]Guard{g})
+						continue
+					}
+					desc = "guarded by " + guardDesc([]Guard{g})
+					if lc, isCall := x.(*ssa.Call); isCall && builtinName(&lc.Call) == "len" && strings.HasSuffix(Path(lc.Call.Args[0]), "."+fname) {
+						sizeOK = true
+						// the size is read in the critical section of the delete
+						var del ssa.Instruction
+						for _, a := range ls.accessesIn(devKey, fn) {
+							if dc, isD := a.Ins.(*ssa.Call); isD && builtinName(&dc.Call) == "delete" {
+								del = dc
+							}
+						}
+						if del != nil {
+							if ld, isLd := lc.Call.Args[0].(ssa.Instruction); isLd && len(ls.CommonSections(del, ld)) > 0 && instrDominates(del, lc) {
+								atomicOK = true
+							}
+						}
+					}
+				}
+				r.Check(rule, FnName(fn)+"|core-unsubscribe", sizeOK && atomicOK && nOther == 0, p.InstrPos(c), fmt.Sprintf("%s; required: exactly 'len(%s) == 0', the length read after the delete in its critical section (size test: %v, same critical section after the delete: %v, other conditions: %d)", desc, fname, sizeOK, atomicOK, nOther))
+			})
+		})
+	}
+	r.Floor(rule, "unsubscriptions of the core handler in RemoveRemoteDevice", n, 1)
 }
